@@ -25,7 +25,7 @@ def arith_sites(b, op, var):
             rv = st["rv"]
             if rv["r"] == "bin" and rv["op"].startswith(op):
                 a = b.operand_term(rv["a"])
-                if field_path(a).split(".")[-1] == var:
+                if field_path(a).split(".")[-1] == var or field_path(b.origin(mir.strip(a))).split(".")[-1] == var:
                     out.append(bi)
     return out
 
